@@ -9,3 +9,4 @@ import MiniconfVerif.Props.C06
 #print axioms MiniconfVerif.C06.source_internal_is_model
 #print axioms MiniconfVerif.C06.source_internal_array_is_model
 #print axioms MiniconfVerif.C06.source_leaf_and_max_length
+#print axioms MiniconfVerif.C06.walker_sees_every_node
